@@ -2,7 +2,11 @@
 
 package fit
 
-import "github.com/tormoder/fit/dyncrc16"
+import (
+	"io"
+
+	"github.com/tormoder/fit/dyncrc16"
+)
 
 // C10 — framing; C11 — truncation and read faults; C16 — options.
 
@@ -145,6 +149,15 @@ func H11b() {
 	case 1:
 		k = vConcretize(vInt(0, len(s2.data)-1))
 		r = &vReader{data: all, chunk: chunk, failAt: len(s1.data) + k}
+		// the fault is a non-EOF error of the reader's choosing: the
+		// harness's own, io.ErrUnexpectedEOF (truncated gzip/http bodies
+		// report it), or io.ErrClosedPipe
+		switch vConcretize(vInt(0, 2)) {
+		case 1:
+			r.faultErr = io.ErrUnexpectedEOF
+		case 2:
+			r.faultErr = io.ErrClosedPipe
+		}
 	default:
 		b := vByte()
 		r = &vReader{data: append(append([]byte{}, s1.data...), b), chunk: chunk, failAt: -1}
